@@ -106,6 +106,13 @@ def gen_spec(rng, idx, route=None):
             spec['drop'] = sorted(map(list, drop))
     if route != 'numpy':
         spec['detection'] = rng.choice(DETECTIONS)
+    if route in ('segy', 'segy_iops') and spec['shape'][0] >= 3 and spec['shape'][1] >= 3 and rng.random() < 0.25:
+        # conversion of an inline / crossline window of the source (ordinals; the constructor takes a window
+        # only when all four bounds are non-zero)
+        n_il, n_xl = spec['shape'][0], spec['shape'][1]
+        a = rng.randint(1, n_il - 2)
+        c = rng.randint(1, n_xl - 2)
+        spec['window'] = [a, rng.randint(a + 1, n_il), c, rng.randint(c + 1, n_xl)]
     return spec
 
 
@@ -136,7 +143,8 @@ def inline_set_bytes(spec):
     full = resolve_blockshape(spec['bits'], spec['blockshape'])
     if spec['route'] == 'segy_2d':
         return spec['shape'][0] * spec['shape'][1] * 4
-    return full[0] * spec['shape'][1] * spec['shape'][2] * 4
+    n_xl = spec['shape'][1] if not spec.get('window') else spec['window'][3] - spec['window'][2]
+    return full[0] * n_xl * spec['shape'][2] * 4
 
 
 def mem_for_cap(spec, cap):
@@ -178,8 +186,11 @@ def converter_fn(spec, out_path):
     kw = dict(bits_per_voxel=bits, blockshape=bs, header_detection=spec['detection'],
               reduce_iops=(route == 'segy_iops'))
 
+    win = spec.get('window')
+    ckw = dict(min_il=win[0], max_il=win[1], min_xl=win[2], max_xl=win[3]) if win else {}
+
     def fn():
-        with SegyConverter(src) as c:
+        with SegyConverter(src, **ckw) as c:
             c.run(out_path, **kw)
     return fn
 
